@@ -33,7 +33,7 @@ pub fn specs() -> Vec<PropertySpec> {
                 Plan { engine: "e2", variant: "c18", quick: 1_500, thorough: 30_000, asan: false },
                 Plan { engine: "e2", variant: "c18f", quick: 1_200, thorough: 20_000, asan: false },
             ],
-            rule: "seeded projects (schema split over 1-3 files, 1-5 operation files with imports, random layout/config/options) that are valid or carry 1-3 labelled rule violations; each is run as check / generate / check+generate in the three output formats on a fresh tree (c18), and as check+generate under one injected I/O fault or crash at a sampled (quick) or every (thorough sweeps) intercepted system call of the fault-free trace (c18f). distinct = hash of project shape, config text, injected violations and fired faults; non-trivial = a violation was injected or a fault fired",
+            rule: "seeded projects (schema split over 1-3 files, 1-5 operation files with imports, random layout/config/options) that are valid or carry 1-3 labelled rule violations; each is run as check / generate / check+generate in the three output formats on a fresh tree (c18), and as check+generate under one injected I/O fault or crash at a sampled (quick) or every (thorough sweeps) intercepted system call of the fault-free trace (c18f). distinct = behaviour class of a run: hash of the project / layout shape (numbers of files and import lines, schema format, mode, config format and discovery, cwd, flag overrides, outputs configured), the kinds of injected violations, the fault kinds that fired and the probes reached - not names, texts or seeds; non-trivial = a violation was injected or a fault fired",
             assumptions: vec![
                 "the CLI runs natively under an LD_PRELOAD shim instead of wasm32-wasi",
                 "diagnostic positions are judged by an independent GraphQL lexer",
@@ -95,7 +95,7 @@ pub fn specs() -> Vec<PropertySpec> {
             id: "C14",
             level: "exploration",
             plans: vec![Plan { engine: "e2", variant: "c14", quick: 4_000, thorough: 100_000, asan: false }],
-            rule: "seeded projects with options drawn from the product of the export/name options and the three generate modes; the CLI writes the declaration files, the loader is given the same config text and all operation files of the project as concurrent module builds under a seeded schedule; for every operation file the value exports and the default export are compared. distinct = hash of project shape and config text; every case interleaves >= 1 module with config loading, non-trivial = two hash seeds in play",
+            rule: "seeded projects with options drawn from the product of the export/name options and the three generate modes; the CLI writes the declaration files, the loader is given the same config text and all operation files of the project as concurrent module builds under a seeded schedule; for every operation file the value exports and the default export are compared. distinct = behaviour class of a run (project / layout shape, fault kinds fired, probes reached; not names, texts or seeds); non-trivial = a history event happened (config switch on the loader instance, generate over the outputs of an earlier project version)",
             assumptions: vec!["tolerant scanner for `export const`, `declare const`, `export { X as default }` (e2.rs scan_exports)", "one nitrogql config per loader instance (documented deployment)"],
             real_components: vec!["nitrogql-cli binary", "loader ABI"],
             stubbed_components: vec!["bundler host"],
